@@ -96,11 +96,14 @@ def run_job(job):
     if job.get("unwind"):
         cmd3 += ["--unwind", str(job["unwind"]), "--unwinding-assertions"]
         res["bounded"] = "unwind %s" % job["unwind"]
-    if "--unwind" in cmd3:
+    if "--unwind" in cmd3 and not job.get("fallback_bounded"):
+        # (not for the bounded fallback of a function with an unknown loop: there the extra unwinding of the library loops made
+        #  the search 10x slower -- tb_consume 30 s -> timeout -- and a cut library loop only turns "no failure found" into inconclusive)
         # the loops goto-instrument leaves in its contracts library iterate over the assigns/frees targets of the contracts
         # involved; a small --unwind chosen for the program's own loops must not cut them (that would make the end of the
         # harness unreachable -- caught by the canary, but then nothing is decided)
-        cmd3 += ["--unwindset", ",".join("%s:24" % l for l in (
+        nt = len(getattr(spec, "assigns", None) or []) + len(getattr(spec, "frees", None) or []) + 8     # the library loops run over the contracts' targets
+        cmd3 += ["--unwindset", ",".join("%s:%d" % (l, max(12, min(24, nt))) for l in (
             "__CPROVER_contracts_write_set_deallocate_freeable.0", "__CPROVER_contracts_write_set_deallocate_freeable.1", "__CPROVER_contracts_write_set_deallocate_freeable.2",
             "__CPROVER_contracts_write_set_check_frees_clause_inclusion.0", "__CPROVER_contracts_write_set_check_assigns_clause_inclusion.0"))]
     if spec.solver:
